@@ -411,3 +411,8 @@ pub proof fn lemma_bs_word(s: Seq<char>)
 
 // a Rust string has at most isize::MAX bytes, hence at most that many chars (ASSUMED; needed for the R12 counter of `enumerate`)
 pub axiom fn axiom_str_chars_fit_usize(s: &str) ensures s@.len() <= isize::MAX;
+// R14: `s.bytes().map(char::from)`: every UTF-8 byte of the text read as a character of its own (Latin-1); equal to the characters of
+// the text only for ASCII text — left abstract
+pub uninterp spec fn bytes_as_chars(s: Seq<char>) -> Seq<char>;
+#[verifier::external_body]
+pub fn str_bytes_as_chars(s: &str) -> (r: Vec<char>) ensures r@ == bytes_as_chars(s@) { unimplemented!() }
